@@ -19,7 +19,7 @@ func createDynForDynamicSampler(c *config.DynamicSamplerConfig) dynsampler.Sampl
 		maxKeys = 500
 	}
 	clearFreq := c.ClearFrequency
-	if clearFreq == 0 {
+	if clearFreq <= 0 { // a negative duration passes validation and would panic in time.NewTicker
 		clearFreq = config.Duration(30 * time.Second)
 	}
 
